@@ -23,6 +23,45 @@ REG = dict(category="model_checking",
     design_ref="DESIGN.md §4 C17")
 
 
+def validate_strict(chk, events, module, cfg, name, variant="std", timeout=3000):
+    """T direction, as engine.Check.validate, but a TLC run that reports 'Invariant TraceOK is violated' is a rejection
+    even when TLC (run with -continue) ends with 'No error has been found' and exit code 0."""
+    import re, vlib
+    from vlib import Infra, log
+    if not events:
+        raise Infra("empty trace for " + name)
+    path = "%s/%s.trace.ndjson" % (chk.out, name)
+    vlib.write_ndjson(path, events)
+    r = chk.tlc(module, cfg, env={"TRACE": path}, extra=("-continue",), timeout=timeout, expect_ok=False)
+    chk.traces_validated += len(events)
+    chk.evaluations += len(events)
+    for ev in events:
+        chk.case_labels["T:" + chk.label_of(ev)] += 1
+    if len(chk.samples) < 6:
+        chk.samples.append({"direction": "impl->spec", "variant": variant, "event": chk.shorten(events[len(events) // 3])})
+    if r.ok and not r.invariant_violated:
+        log("[%s] trace %s: %d events accepted (%.1fs)" % (chk.pid, name, len(events), r.wall))
+        return True
+    if not r.invariant_violated:
+        raise Infra("trace validation %s could not be evaluated:\n%s" % (name, r.tail(60)))
+    idxs = sorted(set(int(x) for x in re.findall(r"/\\ cur = (\d+)", r.out)))
+    bad = [events[i - 1] for i in idxs if 1 <= i <= len(events)]
+    if not bad:
+        raise Infra("trace %s rejected but no event index found:\n%s" % (name, r.tail(60)))
+    p2 = "%s/%s.recheck.ndjson" % (chk.out, name)
+    vlib.write_ndjson(p2, bad)                      # a rejection must repeat on re-validation of the same events
+    r2 = chk.tlc(module, cfg, env={"TRACE": p2}, extra=("-continue",), timeout=timeout, expect_ok=False)
+    if r2.ok and not r2.invariant_violated:
+        chk.notes.append("trace rejection of %s not reproduced on re-validation" % name)
+        return True
+    idx2 = sorted(set(int(x) for x in re.findall(r"/\\ cur = (\d+)", r2.out)))
+    bad2 = [bad[i - 1] for i in idx2 if 1 <= i <= len(bad)] or bad
+    for ev in bad2[:20]:
+        chk.violation("trace %s: event rejected by the specification" % name, [ev], variant)
+    log("[%s] trace %s: %d of %d events REJECTED" % (chk.pid, name, len(bad2), len(events)))
+    return False
+
+
 def flip(b, bit):
     b = list(b); b[bit // 8] ^= 1 << (bit % 8); return b
 
@@ -99,23 +138,19 @@ def run(chk):
     chk.groups = ["halfagg", "schnorr", "keys"]
     orders = [13] if quick else [7, 13, 199]
     chk.build(["std"] + ["tiny%d" % o for o in orders] + ([] if quick else ["verify", "i64", "noasm"]))
-    # X: the small groups -- every s re-encoding s + k*order, all (r, s, pk) strings for n = 1, 2; history machine over all keys and nonces
+    # X: the small groups -- every s re-encoding s + k*order, all (r, s, pk) strings for n = 1, 2, and the history machine over all
+    # keys and nonces (both machines of C17_HalfAgg.tla in one TLC run: cfg C17_all<o>.cfg = C17_tiny<o>.cfg + C17_hist<o>.cfg)
     for o in orders:
-        recs = chk.generate(MODULE, "C17_tiny%d.cfg" % o, "tiny%d" % o, timeout=3000)
-        chk.replay(recs, "tiny%d" % o, "order-%d group: aggregate verification incl. every s + k*%d re-encoding" % (o, o))
-        recs = chk.generate(MODULE, "C17_hist%d.cfg" % o, "hist%d" % o, timeout=3000)
-        chk.replay(recs, "tiny%d" % o, "order-%d group: every schedule of incremental aggregation" % o)
+        recs = chk.generate(MODULE, "C17_all%d.cfg" % o, "tiny%d" % o, timeout=3000)
+        chk.replay(recs, "tiny%d" % o, "order-%d group: every s + k*%d re-encoding, all aggregate strings n <= 2, every schedule of incremental aggregation" % (o, o))
     chk.exhaustive = True
-    # history machine in the real group: every composition for n <= 5 (6)
-    recs = chk.generate(MODULE, "C17_hist.cfg", "hist", timeout=3000)
+    # real group: the history machine (every composition for n <= 5 (6)) and G (counts, buffer lengths, structured damage)
+    # (C17_all.cfg = C17_gen.cfg + C17_hist.cfg)
+    recs = chk.generate(MODULE, "C17_all.cfg", "gen", timeout=3000)
     for v in (["std"] if quick else ["std", "verify", "i64", "noasm"]):
-        chk.replay(recs, v, "every schedule of incremental aggregation")
-    # G: counts, buffer lengths, structured damage
-    recs = chk.generate(MODULE, "C17_gen.cfg", "gen", timeout=3000)
-    for v in (["std"] if quick else ["std", "verify", "i64", "noasm"]):
-        chk.replay(recs, v, "generated boundary records")
+        chk.replay(recs, v, "every schedule of incremental aggregation + generated boundary records")
     # T: aggregates made by the library, decided by TLC
-    chk.validate(driver(chk, 24 if quick else 400), MODULE, "C17_trace.cfg", "driver", timeout=3000)
+    validate_strict(chk, driver(chk, 24 if quick else 400), MODULE, "C17_trace.cfg", "driver")
     return chk.finish(LEVEL,
         "History machine: TLC explores every composition of incremental aggregation steps (invariants: schedule-independent bytes, the aggregate verifies); "
         "each transition and each complete composition is executed on the real API. G: TLC enumerates Cases of C17_HalfAgg.tla (counts, all buffer lengths, "
